@@ -1,5 +1,6 @@
 import Ymq.Props.C01
 import Ymq.Props.C01Closed
+import Ymq.Props.C01Closed2
 #print axioms Ymq.C01.factor_no_one
 #print axioms Ymq.C01.factor_sound
 #print axioms Ymq.C01.retain_residue_one
@@ -10,3 +11,9 @@ import Ymq.Props.C01Closed
 #print axioms Ymq.C01.oracleOK_of_models
 #print axioms Ymq.C01.factor_exact_closed
 #print axioms Ymq.C01.factor_total_closed
+#print axioms Ymq.C01.oracleOK_of_models_v2
+#print axioms Ymq.C01.factor_exact_closed_v2
+#print axioms Ymq.C01.factor_total_closed_v2
+#print axioms Ymq.C01.trial_divided_noSmall
+#print axioms Ymq.C01.squfofModel_exactSeed
+#print axioms Ymq.C01.qs64_model_violates_oracleOK_clause
